@@ -36,7 +36,9 @@ def std_project(scroot, name="p", rng=None, rich_outputs=False, disable_git=True
         for j in range(xr.randint(2, 4)):
             cand = pool + xs
             deps = xr.sample(cand, xr.randint(0, min(3, len(cand))))
-            t = T(xr.choice(PKGS), "x%d" % j, xr.choice(["run_experiment", "run_experiment", "run_command"]), deps, par=xr.random() < 0.5)
+            # legal names that other programs read differently: a leading '-' (an option, to tar), a package that is
+            # called like Conductor's own staging directory
+            t = T(xr.choice(PKGS + ["-p", "archive-tmp", "a/-q"]), xr.choice(["x%d", "x%d", "-x%d", "--x%d"]) % j, xr.choice(["run_experiment", "run_experiment", "run_command"]), deps, par=xr.random() < 0.5)
             tasks.append(t)
             xs.append(t["id"])
         mix = xr.sample(pool + xs, xr.randint(2, len(pool) + len(xs)))
